@@ -2,6 +2,8 @@ import ExprModel.Props.C13
 import ExprModel.Props.C12
 import ExprModel.Proofs.LocBridge
 import ExprModel.Proofs.ParserLocs
+import ExprModel.Proofs.CompileLocs
+import ExprModel.Props.C01
 /-
 C13, end to end: the layers of Props/C13.lean (source / snippet / bind, location facts, location map)
 composed with the lexer (C12), parser (C11) and compiler / VM (C01) models.
@@ -110,5 +112,84 @@ theorem root_location_in_source (cc : CharClass) (hnl : cc.isSpace '\n' = true) 
     (hp : Parser.parse cfg toks = .ok root) : InSource src.toList root.loc := by
   obtain ⟨_, _, hpt⟩ := Node.allLoc_root root (node_locations_in_source cc hnl cfg src toks root hl hp)
   exact hpt.1
+
+/-! ## (3) Instructions, the `Locations` table and run-time errors -/
+
+open ExprModel.LocMap (report)
+
+/-- **`compile_locations`** (discharges `compile_locations_goal` against the real compiler model): every
+    instruction of `compileProgram cfg n` carries the location of a node of `n` — stated as: whatever
+    holds of all node locations of the tree holds of the instruction's location.  The one exception is
+    the `OpCast` epilogue of `AsInt64` / `AsFloat64`, emitted when the node stack is empty (location 0:0). -/
+theorem compile_locations (cfg : CompCfg) (n : Node) (cp : Compiled) (hc : compileProgram cfg n = .ok cp)
+    (P : Loc → Prop) (hn : n.AllLoc P) :
+    ∀ i ∈ cp.code, P i.loc ∨ (i.loc = {} ∧ i.instr.op = .cast ∧ cfg.cast ≠ none) :=
+  compileProgram_locs hc hn
+
+/-- `k` is the byte offset of an opcode of the program -/
+def OpcodeOffset (code : List LInstr) (k : Nat) : Prop := ∃ l, (k, l) ∈ locTable 0 code
+
+/-- `program.Locations[k]` at the offset of an opcode is the location that opcode was emitted with -/
+theorem report_locTable (code : List LInstr) (k : Nat) (l : Loc) (h : (k, l) ∈ locTable 0 code) :
+    report (locTable 0 code) k = l := by
+  have hd : ((locTable 0 code).reverse).Pairwise (fun a b => a.1 ≠ b.1) := by
+    rw [List.pairwise_reverse]
+    exact (locTable_sorted 0 code).imp (fun hab => by omega)
+  unfold report
+  rw [LocMap.lookup_of_mem_distinct _ hd k l (by simpa using h)]
+
+/-- **A failure at the opcode at offset `k` is reported at the location of a node of the tree** (or at
+    0:0 when it is the cast epilogue that fails). -/
+theorem error_location_is_a_node (cfg : CompCfg) (n : Node) (cp : Compiled) (hc : compileProgram cfg n = .ok cp)
+    (k : Nat) (hk : OpcodeOffset cp.code k) (P : Loc → Prop) (hn : n.AllLoc P) :
+    P (report (locTable 0 cp.code) k) ∨ (report (locTable 0 cp.code) k = {} ∧ cfg.cast ≠ none) := by
+  obtain ⟨l, hl⟩ := hk
+  rw [report_locTable _ _ _ hl]
+  obtain ⟨_, i, hi, rfl⟩ := locTable_mem hl
+  rcases compile_locations cfg n cp hc P hn i hi with h | ⟨h1, _, h3⟩
+  · exact Or.inl h
+  · exact Or.inr ⟨h1, h3⟩
+
+/-- **Source to run-time error, composed**: lex, parse and compile a source without `AsInt64`/`AsFloat64`;
+    a failure at any opcode of the program is reported at a location that lies inside the source and whose
+    snippet shows the first rune of the defining token of a node of the tree. -/
+theorem runtime_error_location_in_source (cc : CharClass) (hnl : cc.isSpace '\n' = true) (pcfg : Parser.Cfg)
+    (src : String) (toks : List Token) (root : Node) (cfg : CompCfg) (cp : Compiled)
+    (hl : Lex.lex cc LexTables.std src = .ok toks) (hp : Parser.parse pcfg toks = .ok root)
+    (hc : compileProgram cfg root = .ok cp) (hcast : cfg.cast = none) (k : Nat) (hk : OpcodeOffset cp.code k) :
+    ∃ c, cc.isSpace c = false ∧ PointsAt src.toList (report (locTable 0 cp.code) k) c := by
+  rcases error_location_is_a_node cfg root cp hc k hk _ (node_locations_in_source cc hnl pcfg src toks root hl hp)
+    with h | ⟨_, h⟩
+  · exact h
+  · exact absurd hcast h
+
+open ExprModel.Refine ExprModel.Spec in
+/-- **`runtime_error_location_partial`**: when the language definition fails on the tree, the VM model
+    reaches a failing step (C01 `Conforms`, error case) and — provided that step starts at an opcode of
+    the program (`hb`: every reachable `ip` is an opcode offset; for compiled programs all jumps land on
+    instruction boundaries, C05 `compile_wfStatic`, but the run-time invariant is not proved) — the
+    location reported for it (`Locations[pp]`, `pp` = the `ip` the step starts from) is the location of a
+    node of the tree, or 0:0 for the cast epilogue. -/
+theorem runtime_error_location_partial (c : Cfg) (Pg : Prog) (len : Nat) (ctx : Ctx) (n : Node) (cfg : CompCfg)
+    (cp : Compiled) (hc : compileProgram cfg n = .ok cp) (hconf : C01.Conforms c Pg 0 len ctx n)
+    (s : VM) (hip : s.ip = 0) (hlim : s.limit = c.budget) (hsc : ScopesOK ctx s.scopes)
+    (e : ErrClass) (σ' : SState) (hev : eval (specOf c) ctx n (obs s) = (.error e, σ'))
+    (hb : ∀ s1, Steps c Pg s s1 → OpcodeOffset cp.code s1.ip) :
+    ∃ s1 s2, Steps c Pg s s1 ∧ step c Pg s1 = .error (e, s2) ∧
+      ∀ P : Loc → Prop, n.AllLoc P →
+        P (report (locTable 0 cp.code) s1.ip) ∨ (report (locTable 0 cp.code) s1.ip = {} ∧ cfg.cast ≠ none) := by
+  obtain ⟨s1, s2, hst, _, hstep, _⟩ := hconf s hip hlim hsc _ _ hev
+  exact ⟨s1, s2, hst, hstep, fun P hn => error_location_is_a_node cfg n cp hc s1.ip (hb s1 hst) P hn⟩
+
+/-- what remains: (a) the run-time invariant `hb` (every `ip` reached from 0 in a compiled program is
+    an opcode offset) and `s2.pp = s1.ip` for the model's `step`; (b) the sharper statement that the
+    failing step lies inside the code fragment of the innermost node whose evaluation fails, i.e. that
+    the reported location is that node's location — it needs the simulation of C01 (`Sim`) to carry the
+    byte range of each node's code through its error case. -/
+def runtime_error_location_goal : Prop :=
+  ∀ (c : Cfg) (cfg : CompCfg) (n : Node) (cp : Compiled), compileProgram cfg n = .ok cp →
+    ∀ (fuel : Nat) (e : ErrClass) (s' : VM), run c (Refine.progOf cp) fuel = (.error e, s') → e ≠ .fuel →
+      ∀ P : Loc → Prop, n.AllLoc P →
+        P (report (locTable 0 cp.code) s'.pp) ∨ (report (locTable 0 cp.code) s'.pp = {} ∧ cfg.cast ≠ none)
 
 end ExprModel.C13
